@@ -25,3 +25,7 @@ package dispatcher
 //@   loop 1 invariant[C17] forall j int :: 0 <= j && j < idx ==> cntEntryOK(g.DispatchedCounts[j])
 //@   ensures[C17] err == nil ==> g != nil && amtEntriesOK(g)
 //@   ensures[C17] err == nil ==> cntEntriesOK(g)
+
+// The default genesis holds no statistics (C17: it is valid).
+//@ func DefaultGenesisState() (g)
+//@   ensures[C17] g != nil && len(g.DispatchedAmounts) == 0 && len(g.DispatchedCounts) == 0
